@@ -169,6 +169,9 @@ func vfRunCut(rep *verifkit.Report, variant string, mk vfDecodeFn, s *vfSeq, str
 		rep.Count(variant+"_truncated", 1)
 		if !errors.Is(lastErr, io.ErrUnexpectedEOF) {
 			rep.Violation("framing/"+variant+"/truncation-misreported", fmt.Sprintf("stream ends inside a prefix/message but the reader reports %v (want unexpected EOF)", lastErr), w)
+		} else if errors.Is(lastErr, io.EOF) && variant != "json" {
+			// callers tell a clean end from a broken stream with errors.Is(err, io.EOF)
+			rep.Violation("framing/"+variant+"/truncation-also-matches-clean-end", fmt.Sprintf("the error for a stream cut inside a prefix/message (%v) also satisfies errors.Is(err, io.EOF)", lastErr), w)
 		}
 	}
 }
@@ -493,4 +496,59 @@ func TestVerifC09Writer(t *testing.T) {
 		rep.Count("writer:"+w, len(msgs))
 	}
 	rep.Sample(map[string]any{"writer": "WriteDelimitedMessage", "sizes": "0..1200 consecutively", "expect": "independent parser returns the same messages"})
+}
+
+
+// TestVerifC09LongJSONStream: the JSON variant has no per-stream budget: a long
+// sequence (well beyond 16 MiB in total) is read back completely.
+func TestVerifC09LongJSONStream(t *testing.T) {
+	rep := verifkit.Begin("C09", "long-json-stream", "JSON StreamEncoder -> StreamDecoder over one stream of N messages of ~400 KB each, total {8, 20, 40 (thorough 150)} MiB, read with 64 KB reads; also the binary variant; oracle: all N messages come back equal, then a clean end; distinct = (variant, total size)")
+	defer rep.Write()
+	totals := []int{8, 20, 40}
+	if verifkit.Thorough() {
+		totals = append(totals, 150)
+	}
+	for _, useJSON := range []bool{true, false} {
+		for _, mib := range totals {
+			rep.Eval(1)
+			rep.DistinctKey(useJSON, mib)
+			codec := NewCodec(useJSON)
+			pr, pw := io.Pipe()
+			per := 400 * 1024
+			n := mib * 1024 * 1024 / per
+			go func() {
+				enc := codec.NewEncoder(pw)
+				for i := 0; i < n; i++ {
+					b := bytes.Repeat([]byte{byte('a' + i%26)}, per)
+					if err := enc.Encode(&conformancev1.ClientCompatResponse{TestName: fmt.Sprintf("m%d", i), Result: &conformancev1.ClientCompatResponse_Error{Error: &conformancev1.ClientErrorResult{Message: string(b)}}}); err != nil {
+						_ = pw.CloseWithError(err)
+						return
+					}
+				}
+				_ = pw.Close()
+			}()
+			dec := codec.NewDecoder(pr)
+			got := 0
+			var lastErr error
+			for {
+				m := &conformancev1.ClientCompatResponse{}
+				if lastErr = dec.DecodeNext(m); lastErr != nil {
+					break
+				}
+				if m.TestName != fmt.Sprintf("m%d", got) || len(m.GetError().GetMessage()) != per {
+					lastErr = fmt.Errorf("message #%d came back as %q with %d bytes", got, m.TestName, len(m.GetError().GetMessage()))
+					break
+				}
+				got++
+			}
+			_ = pr.Close()
+			w := map[string]any{"json": useJSON, "messages": n, "total_mib": mib, "read_back": got, "final_error": fmt.Sprint(lastErr)}
+			if got != n || !errors.Is(lastErr, io.EOF) {
+				rep.Violation(fmt.Sprintf("framing/long-stream/json-%v/cut-short", useJSON), fmt.Sprintf("%d of %d messages (%d MiB in total) were read back, then %v", got, n, mib, lastErr), w)
+			} else {
+				rep.Count("long_streams_ok", 1)
+			}
+		}
+	}
+	rep.Sample(map[string]any{"variant": "json", "total": "40 MiB in 102 messages", "expect": "102 messages, then io.EOF"})
 }
